@@ -42,6 +42,7 @@ import (
 	"context"
 	"errors"
 	"fmt"
+	"io"
 	"math/rand"
 	"net"
 	"os"
@@ -1023,6 +1024,26 @@ func (v *c17Env) handleOp(c int, what string, k, val int) string {
 			} else {
 				res, gv = "ok", c17ParseVal(r.Value)
 			}
+		case "scan":
+			// TxScan over a prefix no program writes: no rows; for the registry the call is activity
+			// on the handle like a TxGet (the model runs it as a get of a key that is never written)
+			st, err := v.cli.TxScan(ctx, &pb.TxScanRequest{TransactionId: t.id, Prefix: []byte("no-such-prefix/")})
+			if err == nil {
+				for {
+					if _, err = st.Recv(); err != nil {
+						break
+					}
+				}
+				if err == io.EOF {
+					err = nil
+				}
+			}
+			if err != nil {
+				res = c17Class(err)
+			} else {
+				res = "notfound"
+			}
+			what = "get"
 		case "put":
 			_, err := v.cli.TxPut(ctx, &pb.TxPutRequest{TransactionId: t.id, Key: c17Key(k), Value: c17Val(val)})
 			res = c17Class(err)
@@ -1241,6 +1262,12 @@ func (v *c17Env) runLines(c *Case) {
 			if r == "wait" && liveBefore == 0 && pendBefore == 0 && len(v.parked()) <= 1 {
 				v.fail("Begin of client %d has to wait although no transaction is alive", cnum)
 			}
+		case "scan":
+			if !v.svc {
+				v.out("IMPL-ERROR scan needs svc=1")
+				break
+			}
+			v.out(v.handleOp(ai(1), "scan", 99, 0))
 		case "get", "put", "del", "commit", "rollback":
 			v.out(v.handleOp(ai(1), l[0], ai(2), ai(3)))
 			releasing = l[0] == "commit" || l[0] == "rollback"
